@@ -422,6 +422,7 @@ func resetRemoveAnnounce(c *Ctx, rule string) {
 	}
 	isDelete := func(ev *Ev) bool { return ev.Label == "call:(*ctree.Tree).Delete" }
 	isClient := func(ev *Ev) bool { return strings.HasPrefix(ev.Label, "call:dyn:") && loadOfField(ev.Fn.V, fClient) }
+	rootsChecked := 0
 	for _, isMeta := range []bool{false, true} {
 		e := &PPA{MaxVisits: 3, TraceBranches: false,
 			Cond: func(e *PPA, st *State, rv RV) (bool, bool) {
@@ -454,6 +455,7 @@ func resetRemoveAnnounce(c *Ctx, rule string) {
 			nDel, nCl := p.Count(isDelete), p.Count(isClient)
 			ok := pre
 			detail := ""
+			rootDetail := ""
 			if isMeta {
 				ok = ok && nDel == 0 && nCl == 0
 				detail = "metadata root is skipped"
@@ -481,47 +483,25 @@ func resetRemoveAnnounce(c *Ctx, rule string) {
 					}
 					root := p.Trace[dn].Args[1]
 					// deleted path is a one-element literal holding the same root
-					if !strings.Contains(Expr(p.Trace[dl].Args[1].V), "slicelit") && !strings.Contains(Expr(p.Trace[dl].Args[1].V), "complit") {
+					els := p.Trace[dl].Elems[1]
+					rootsChecked++
+					if len(els) != 1 || els[0] != root {
 						ok = false
+						rootDetail = fmt.Sprintf("; Delete(%s) announced as deleteNoti(…, %s, …)", Expr(p.Trace[dl].Args[1].V), Expr(root.V))
 					}
-					_ = root
+					// the announced paths are the literal ["*"]
+					if pe := p.Trace[dn].Elems[2]; len(pe) != 1 || func() bool { s, okc := constString(pe[0].V); return !okc || s != "*" }() {
+						ok = false
+						rootDetail += "; announced path is not [*]"
+					}
 				}
-				detail = fmt.Sprintf("deletes=%d announcements=%d", nDel, nCl)
+				detail = fmt.Sprintf("deletes=%d announcements=%d%s", nDel, nCl, rootDetail)
 			}
 			c.Check(ok, rule, fnName(reset), fmt.Sprintf("every non-meta root deleted and announced (root is metadata=%v)", isMeta), P.Pos(reset.Pos()), detail+"; path: "+p.String())
 		}
 		c.Floor(fmt.Sprintf("%s/reset-paths(meta=%v)", rule, isMeta), n, 1)
 	}
-	// deleted root == announced root: both use the range key
-	{
-		var delKey, notiKey ssa.Value
-		instrs(reset, func(in ssa.Instruction) {
-			call, ok := in.(*ssa.Call)
-			if !ok {
-				return
-			}
-			switch calleeName(&call.Call) {
-			case "cache.deleteNoti":
-				notiKey = call.Call.Args[1]
-			case "(*ctree.Tree).Delete":
-				// []string{root}: find the store of the element
-				if sl, ok := call.Call.Args[1].(*ssa.Slice); ok {
-					if al, ok := sl.X.(*ssa.Alloc); ok {
-						for _, r := range *al.Referrers() {
-							if ia, ok := r.(*ssa.IndexAddr); ok {
-								for _, rr := range *ia.Referrers() {
-									if st, ok := rr.(*ssa.Store); ok {
-										delKey = st.Val
-									}
-								}
-							}
-						}
-					}
-				}
-			}
-		})
-		c.Check(delKey != nil && delKey == notiKey, rule, fnName(reset), "the announced root is the deleted root", P.Pos(reset.Pos()), fmt.Sprintf("Delete([%s]) / deleteNoti(…, %s, …)", exprOrNil(delKey), exprOrNil(notiKey)))
-	}
+	c.Check(rootsChecked > 0, rule, fnName(reset), "the announced root is the deleted root", P.Pos(reset.Pos()), fmt.Sprintf("%d announcement(s) on the explored paths compared with the preceding Delete", rootsChecked))
 	// Cache.Remove
 	{
 		e := &PPA{Watch: func(ev *Ev) bool {
